@@ -14,7 +14,8 @@ namespace vf {
 inline int &g_scale() { static int s = 1; return s; }
 inline int &g_huge_left() { static int n = 0; return n; }  // how many 2^16-sized segments the current case may still get
 struct LongMode {
-  explicit LongMode(Tape &t) { g_scale() = t.chance(15, 16) ? 1 : 8; g_huge_left() = g_scale() > 1 ? 1 : 0; }
+  // allowHuge: the harness can afford one segment of 2^16 + 1..3 characters now and then (path algebra: C06, C09, C10)
+  explicit LongMode(Tape &t, bool allowHuge = false) { g_scale() = t.chance(15, 16) ? 1 : 8; g_huge_left() = (allowHuge && g_scale() > 1) ? 1 : 0; }
   ~LongMode() { g_scale() = 1; g_huge_left() = 0; }
   bool on() const { return g_scale() != 1; }
 };
